@@ -30,12 +30,43 @@ pub enum Policy {
     Replay(Vec<u8>),
 }
 
-#[derive(Clone, Copy, Debug, PartialEq, Eq)]
+/// Pointer to the "is the real lock still held" probe of a parked task. It points into the
+/// stack frame of the task that is parked inside `lock_wait`, which outlives every use.
+#[derive(Clone, Copy)]
+struct Probe(*const (dyn Fn() -> bool + 'static));
+unsafe impl Send for Probe {}
+
+impl Probe {
+    fn locked(&self) -> bool {
+        unsafe { (*self.0)() }
+    }
+}
+
+#[derive(Clone, Copy)]
 enum TState {
     Runnable,
-    Blocked(usize),
+    /// Parked before a lock whose real state is read through the probe.
+    Waiting(Probe),
     Finished,
     Lost,
+}
+
+impl TState {
+    fn name(&self) -> &'static str {
+        match self {
+            TState::Runnable => "runnable",
+            TState::Waiting(_) => "waiting-for-lock",
+            TState::Finished => "finished",
+            TState::Lost => "lost",
+        }
+    }
+    fn is_lost(&self) -> bool {
+        matches!(self, TState::Lost)
+    }
+}
+
+fn describe(states: &[TState]) -> String {
+    states.iter().map(|s| s.name()).collect::<Vec<_>>().join(", ")
 }
 
 #[derive(Clone, Debug, PartialEq, Eq)]
@@ -64,7 +95,6 @@ struct Inner {
     n: usize,
     state: Vec<TState>,
     current: Option<usize>,
-    locks: BTreeMap<usize, usize>,
     policy: Policy,
     rng: Rng,
     prio: Vec<u32>,
@@ -98,8 +128,7 @@ pub fn install_hooks() {
     static ONCE: std::sync::Once = std::sync::Once::new();
     ONCE.call_once(|| {
         liquid_core::verif::install(liquid_core::verif::Hooks {
-            lock_acquire: hook_lock_acquire,
-            lock_release: hook_lock_release,
+            before_lock: hook_before_lock,
             yield_point: hook_yield,
             next_hash_seed: hook_hash_seed,
         });
@@ -192,12 +221,8 @@ pub fn yield_point(site: &'static str) {
     hook_yield(site);
 }
 
-fn hook_lock_acquire(id: usize, site: &'static str) {
-    with_cur(|s, t| s.lock_acquire(t, id, site));
-}
-
-fn hook_lock_release(id: usize) {
-    with_cur(|s, t| s.lock_release(t, id));
+fn hook_before_lock(is_locked: &dyn Fn() -> bool, site: &'static str) {
+    with_cur(|s, t| s.lock_wait(t, is_locked, site));
 }
 
 pub fn in_execution() -> bool {
@@ -210,7 +235,11 @@ const RENDER_SITES: &[&str] = &["template.element", "sink.write", "data.get", "d
 
 impl Inner {
     fn eligible(&self, t: usize) -> bool {
-        self.state[t] == TState::Runnable
+        match &self.state[t] {
+            TState::Runnable => true,
+            TState::Waiting(p) => !p.locked(),
+            _ => false,
+        }
     }
 
     fn soft_eligible(&self, t: usize) -> bool {
@@ -311,7 +340,6 @@ impl Sched {
                 n,
                 state: vec![TState::Runnable; n],
                 current: None,
-                locks: BTreeMap::new(),
                 policy,
                 rng,
                 prio,
@@ -373,7 +401,7 @@ impl Sched {
             drop(g);
             std::panic::resume_unwind(Box::new(AbortExecution));
         }
-        if g.state[t] == TState::Lost {
+        if g.state[t].is_lost() {
             // we were presumed blocked on an untracked primitive; rejoin the pool
             g.state[t] = TState::Runnable;
             if g.current.is_none() {
@@ -405,71 +433,66 @@ impl Sched {
         }
     }
 
-    fn lock_acquire(&self, t: usize, id: usize, site: &'static str) {
+    /// Called right before task `t` takes a real lock. Parks the task while the real lock is held
+    /// by somebody else (who must be parked at a scheduling point inside its critical section).
+    fn lock_wait(&self, t: usize, is_locked: &dyn Fn() -> bool, site: &'static str) {
         let _ = site;
         self.sched_point(t, "lock.acquire");
+        if !is_locked() {
+            // free, and we hold the baton: the caller's lock() succeeds without blocking
+            return;
+        }
+        // erase the lifetime: the probe is only used while this frame is parked below
+        let probe = Probe(unsafe { std::mem::transmute::<*const (dyn Fn() -> bool + '_), *const (dyn Fn() -> bool + 'static)>(is_locked as *const _) });
         let mut g = self.lock();
         loop {
-            match g.locks.get(&id).copied() {
-                None => {
-                    g.locks.insert(id, t);
-                    return;
+            if g.abort.is_some() {
+                g.state[t] = TState::Runnable;
+                drop(g);
+                std::panic::resume_unwind(Box::new(AbortExecution));
+            }
+            if !probe.locked() {
+                g.state[t] = TState::Runnable;
+                return;
+            }
+            g.state[t] = TState::Waiting(probe);
+            g.stats.lock_blocked += 1;
+            g.progress += 1;
+            g.digest.u64(t as u64).str("lock.blocked");
+            let waiters = g.state.iter().filter(|s| matches!(s, TState::Waiting(_))).count();
+            if waiters > g.stats.max_waiters {
+                g.stats.max_waiters = waiters;
+            }
+            match g.choose(None) {
+                Some(nx) => {
+                    g.stats.switches += 1;
+                    self.hand_over(&mut g, Some(nx));
                 }
-                Some(owner) if owner == t => {
-                    self.set_abort(&mut g, Abort::Deadlock(format!("task {t} re-acquires lock it already holds")));
+                None => {
+                    if g.state.iter().any(|s| s.is_lost()) {
+                        // somebody is stuck outside our view; let the watchdog decide
+                        self.hand_over(&mut g, None);
+                    } else {
+                        let desc = describe(&g.state);
+                        g.state[t] = TState::Runnable;
+                        self.set_abort(&mut g, Abort::Deadlock(desc));
+                        drop(g);
+                        std::panic::resume_unwind(Box::new(AbortExecution));
+                    }
+                }
+            }
+            // wait for the baton; on abort make sure the dangling probe is gone first
+            loop {
+                if g.abort.is_some() {
+                    g.state[t] = TState::Runnable;
                     drop(g);
                     std::panic::resume_unwind(Box::new(AbortExecution));
                 }
-                Some(_) => {
-                    g.state[t] = TState::Blocked(id);
-                    g.stats.lock_blocked += 1;
-                    g.progress += 1;
-                    g.digest.u64(t as u64).str("lock.blocked");
-                    let waiters = g.state.iter().filter(|s| **s == TState::Blocked(id)).count();
-                    if waiters > g.stats.max_waiters {
-                        g.stats.max_waiters = waiters;
-                    }
-                    match g.choose(None) {
-                        Some(nx) => {
-                            g.stats.switches += 1;
-                            self.hand_over(&mut g, Some(nx));
-                        }
-                        None => {
-                            if g.state.iter().any(|s| *s == TState::Lost) {
-                                // somebody is stuck outside our view; let the watchdog decide
-                                self.hand_over(&mut g, None);
-                            } else {
-                                let desc = format!("{:?}", g.state);
-                                self.set_abort(&mut g, Abort::Deadlock(desc));
-                                drop(g);
-                                std::panic::resume_unwind(Box::new(AbortExecution));
-                            }
-                        }
-                    }
-                    g = self.wait_for_baton(g, t);
+                if g.current == Some(t) {
+                    break;
                 }
+                g = self.cvs[t].wait(g).unwrap_or_else(|e| e.into_inner());
             }
-        }
-    }
-
-    fn lock_release(&self, t: usize, id: usize) {
-        {
-            let mut g = self.lock();
-            if g.locks.get(&id) == Some(&t) {
-                g.locks.remove(&id);
-            }
-            for s in g.state.iter_mut() {
-                if *s == TState::Blocked(id) {
-                    *s = TState::Runnable;
-                }
-            }
-            if g.abort.is_some() {
-                // unwinding: do not schedule
-                return;
-            }
-        }
-        if !std::thread::panicking() {
-            self.sched_point(t, "lock.release");
         }
     }
 
@@ -481,20 +504,10 @@ impl Sched {
 
     fn task_finish(&self, t: usize) {
         let mut g = self.lock();
-        let was_lost = g.state[t] == TState::Lost;
+        let was_lost = g.state[t].is_lost();
         g.state[t] = TState::Finished;
         g.finished += 1;
         g.progress += 1;
-        // release anything the task still owns (only after a panic)
-        let owned: Vec<usize> = g.locks.iter().filter(|(_, &o)| o == t).map(|(&k, _)| k).collect();
-        for id in owned {
-            g.locks.remove(&id);
-            for s in g.state.iter_mut() {
-                if *s == TState::Blocked(id) {
-                    *s = TState::Runnable;
-                }
-            }
-        }
         if g.finished == g.n {
             g.current = None;
             self.done.notify_all();
@@ -510,10 +523,10 @@ impl Sched {
         match g.choose(None) {
             Some(nx) => self.hand_over(&mut g, Some(nx)),
             None => {
-                if g.state.iter().any(|s| *s == TState::Lost) {
+                if g.state.iter().any(|s| s.is_lost()) {
                     self.hand_over(&mut g, None);
                 } else {
-                    let desc = format!("{:?}", g.state);
+                    let desc = describe(&g.state);
                     self.set_abort(&mut g, Abort::Deadlock(desc));
                 }
             }
@@ -532,8 +545,8 @@ pub struct ExecResult<R> {
 
 /// How long a task may go without reaching a scheduling point before it is presumed blocked
 /// on a primitive the simulator does not own.
-const LOST_AFTER: Duration = Duration::from_millis(2500);
-const GIVE_UP_AFTER: Duration = Duration::from_millis(12000);
+const LOST_AFTER: Duration = Duration::from_millis(1000);
+const GIVE_UP_AFTER: Duration = Duration::from_millis(6000);
 
 /// Run `tasks` as one deterministic execution.
 pub fn run_execution<R: Send + 'static>(
@@ -584,7 +597,7 @@ pub fn run_execution<R: Send + 'static>(
         }
         if g.abort.is_some() {
             // wait (bounded) for tasks to unwind; tasks stuck in the kernel are leaked
-            let all_accounted = g.finished + g.state.iter().filter(|s| **s == TState::Lost).count() >= g.n;
+            let all_accounted = g.finished + g.state.iter().filter(|s| s.is_lost()).count() >= g.n;
             if all_accounted || last_change.elapsed() > LOST_AFTER {
                 break;
             }
@@ -611,7 +624,7 @@ pub fn run_execution<R: Send + 'static>(
                 last_progress = g.progress;
                 last_change = Instant::now();
             } else if idle > GIVE_UP_AFTER {
-                let desc = format!("no task can make progress: {:?}", g.state);
+                let desc = format!("no task can make progress: {}", describe(&g.state));
                 sched.set_abort(&mut g, Abort::Stalled(desc));
                 last_change = Instant::now();
             }
